@@ -28,6 +28,18 @@ impl Display for Export {
 }
 
 impl Export {
+    /// Whether a member of this name has been exported already.
+    pub fn contains(&self, name: &str) -> bool {
+        let exports = self
+            .exports
+            .upgrade()
+            .expect("[CONTAINS] backing export reference was dropped");
+
+        let view = exports.borrow();
+
+        view.iter().any(|ident| ident.name() == name)
+    }
+
     pub fn add(&mut self, ident: Ident) {
         let exports = self
             .exports
